@@ -16,7 +16,7 @@ set_option linter.unusedVariables false
 open Matrix
 
 namespace GT.C11
-open GT ND
+open GT GT.Act GT.Act.ND
 
 section inv
 variable {K : Type} [Field K] [Inhabited K] (r : K → K)
@@ -38,37 +38,37 @@ theorem computeAux_polygon_literal (p : ND K) {o : List ℕ} {t n : ℕ} (hp : p
       ∀ ix, Valid a.shape ix → a.get ix = c.get ix := computeAuxPolygonLit_spec r p hp
 
 theorem inv_step_copy {X Y : Obj K} (hX : Inv r X) (h : X.step r .copy = .ok Y) : Inv r Y :=
-  GT.inv_step_copy r hX h
+  GT.Act.inv_step_copy r hX h
 
 theorem inv_step_astype {X Y : Obj K} (hX : Inv r X) (h : X.step r .astype = .ok Y) : Inv r Y :=
-  GT.inv_step_astype r hX h
+  GT.Act.inv_step_astype r hX h
 
 /-- `apply`: C03's equivariance; for segments and tangent vectors the matrix must preserve the
 Minkowski form (`OpOk`), for polygons any square matrix will do -/
 theorem inv_step_apply {X Y : Obj K} {A : ND K} (hX : Inv r X) (hA : OpOk r X.kind (.apply A))
-    (h : X.step r (.apply A) = .ok Y) : Inv r Y := GT.inv_step_apply r hX hA h
+    (h : X.step r (.apply A) = .ok Y) : Inv r Y := GT.Act.inv_step_apply r hX hA h
 
 theorem inv_step_reshape {X Y : Obj K} {s : List ℕ} (hX : Inv r X)
-    (h : X.step r (.reshape s) = .ok Y) : Inv r Y := GT.inv_step_reshape r hX h
+    (h : X.step r (.reshape s) = .ok Y) : Inv r Y := GT.Act.inv_step_reshape r hX h
 
 theorem inv_step_flatten {X Y : Obj K} (hX : Inv r X) (h : X.step r .flatten = .ok Y) : Inv r Y :=
-  GT.inv_step_flatten r hX h
+  GT.Act.inv_step_flatten r hX h
 
 theorem inv_step_index {X Y : Obj K} {k : ℕ} (hX : Inv r X) (h : X.step r (.index k) = .ok Y) :
-    Inv r Y := GT.inv_step_index r hX h
+    Inv r Y := GT.Act.inv_step_index r hX h
 
 /-- item assignment — of the REPAIRED code (derived data recomputed) -/
 theorem inv_step_setItem {X Y : Obj K} {k : ℕ} {v : ND K} (hX : Inv r X)
-    (h : X.step r (.setItem k v) = .ok Y) : Inv r Y := GT.inv_step_setItem r hX h
+    (h : X.step r (.setItem k v) = .ok Y) : Inv r Y := GT.Act.inv_step_setItem r hX h
 
 theorem inv_step_stack {X Y : Obj K} {others : List (Obj K)} (hX : Inv r X)
     (hO : OpOk r X.kind (.stack others)) (h : X.step r (.stack others) = .ok Y) : Inv r Y :=
-  GT.inv_step_stack r hX hO h
+  GT.Act.inv_step_stack r hX hO h
 
 /-- `combine` — of the REPAIRED code (blocks concatenated separately) -/
 theorem inv_step_combine {X Y : Obj K} {others : List (Obj K)} (hX : Inv r X)
     (hO : OpOk r X.kind (.combine others)) (h : X.step r (.combine others) = .ok Y) : Inv r Y :=
-  GT.inv_step_combine r hX hO h
+  GT.Act.inv_step_combine r hX hO h
 
 /-- every operation preserves the invariant and the class -/
 theorem inv_step {X Y : Obj K} {op : ObjOp K} (hX : Inv r X) (hop : OpOk r X.kind op)
@@ -110,6 +110,10 @@ theorem query_nowrite (X : Obj K) :
 /-- `utils.normalize` on one row: divides by `√|⟨x,x⟩| > 0` or leaves a null row alone -/
 theorem normalize_row_posScale (hr : RootNonneg r) {n : ℕ} (x : Fin n → K) :
     PosProjEq (normalizeRow r x) x := normalizeRow_pos hr x
+
+/-- the unit-level write is C01's `normalize` (same Minkowski form, same formula) -/
+theorem normalizeRow_is_normalize (r : K → K) {m : ℕ} (x : Fin (m + 1) → K) :
+    normalizeRow r x = GT.normalize r x := normalizeRow_eq_normalize r x
 
 /-- hyperboloid coordinates, distance, `origin_to` on points: the stored rows are rescaled
 positively, derived data is untouched -/
